@@ -45,6 +45,52 @@ CLAIMS['C16'] = dict(
     ref='DESIGN.md §2 C16',
     technique='SMT (z3 bit-vector) queries on AST-translated kernels + bounded symbolic execution (CrossHair) of build/parse')
 
+CLAIMS['C13'] = dict(
+    text='Request path = "/" + up to 5 (thorough 6) characters over {/ . a b % 2 e ?}, each fixed per path by a solver-decided ladder, '
+         'plus concrete traversal prefixes, through the real handler -> HttpWebServerPlugin -> serve_static_file against a fake file tree '
+         'with files inside, beside (name-prefix sibling) and above the root: 200 only if an independent dot-segment resolver places the path '
+         'inside the root and the body equals that file; otherwise exactly the 404 packet; the query never changes the outcome.',
+    note='Trusted: CrossHair + z3; open()/mimetypes stubbed by FakeFS with its own normaliser; pure-Python model of os.path.normpath '
+         '(validated each run). gzip replies are checked on concrete vectors natively (not a solver claim).',
+    ref='DESIGN.md §2 C13')
+CLAIMS['C14'] = dict(
+    text='Targets assembled from components (absolute / scheme-less / CONNECT authority form; reg-names, IPv4, six IPv6 spellings with '
+         'symbolic characters; symbolic port 1..65535 or absent; userinfo; symbolic path characters) run through Url.from_bytes and then '
+         'through the real handler, connect_upstream and the REAL new_socket_connection down to a stubbed socket module: parsed host/port/path '
+         'equal the components, default ports 80/443, exactly one OS-level connect to (host without brackets, port) with the right address '
+         'family; damaged targets end in 400/502/close without any connect.',
+    note='Trusted: CrossHair + z3, plugin models; socket.socket/create_connection recorders (raise OverflowError for ports outside 0..65535 '
+         'as the OS call does). Component assembly is cross-checked against urllib.parse on concrete samples each run.',
+    ref='DESIGN.md §2 C14')
+CLAIMS['C18'] = dict(
+    text='Every history of bounded length over {subscribe i, unsubscribe i (also unknown/repeated), break channel i, publish} with '
+         'run_once() after each operation, executed on the real EventDispatcher/EventQueue with list-backed queue and channel stubs; per '
+         'channel the received sequence must equal the reference sequence (ack, publishes while subscribed and unbroken in order, unsubscribe '
+         'ack), removed/broken channels are closed and evicted, the dispatcher never raises. Opcodes are solver variables fixed per path '
+         'by a ladder: a finite table explored by forking; the solver decides path feasibility.',
+    note='Trusted: CrossHair + z3, queue/channel stubs, integer clock. Real pipes, threads, pickling are outside.',
+    ref='DESIGN.md §2 C18')
+CLAIMS['C19'] = dict(
+    text='RESTRICTED CLAIM (bookkeeping half only). Proxy.setup()/shutdown() with ListenerPool on stubbed listen(): for every '
+         'configuration of primary port / 0..3 additional ports (values chosen by symbolic selectors from a 5-value pool incl. 0) / unix socket '
+         '/ 1-2 addresses / port+pid files: every configured (address, port) is listened on, flags.port is the port bound for --port, '
+         '[flags.port]+flags.ports is exactly the set of bound TCP ports, the port file lists them primary first, acceptors start after '
+         'binding and stop before listeners close, files are removed on shutdown.',
+    note='NOT claimed (not encodable): that endpoints really accept, child processes, real files, execution modes. Stubs: listen(), '
+         'AcceptorPool/ThreadlessPool/EventManager recorders, in-memory file system, address stand-ins (ipaddress objects hash through hex(), '
+         'which the tracer breaks).',
+    ref='DESIGN.md §2 C19')
+CLAIMS['C20'] = dict(
+    text='(a) is_inactive() == (no pending output and now - last client-side activity > timeout) after every trace of <=3 (thorough 4) events '
+         'over {client read, client flush, upstream data, upstream flush, output queued, nothing} with symbolic timeout and symbolic integer '
+         'clock increments, on a real established tunnel; (b) the real Threadless._cleanup_inactive on two works reaps exactly the idle ones; '
+         '(c) the threaded run() loop leaves at the first iteration where the predicate holds; (d) SMT query on the tick arithmetic '
+         'translated from _run_forever: from any tick within a period the reaper fires within period+1 iterations.',
+    note='Clock is integer ticks: IEEE rounding of now-last at the threshold is outside the claim. Stubs: Clock, FakeSocket/Selector/Loop, '
+         'asyncio.new_event_loop shim.',
+    ref='DESIGN.md §2 C20',
+    technique='bounded symbolic execution (CrossHair on z3) + one z3 query on an AST-translated kernel')
+
 NOT_BUILT = 'check not built yet in this session (work in progress; see DESIGN.md §2 for the plan)'
 NA = {
     'C17': 'mode equivalence depends on OS threads, processes and descriptor passing (send_handle/recv_handle, real select/accept), which '
